@@ -101,7 +101,7 @@ Definition put_front (len : Z) (w : bytes) : outcome bytes :=
   if len <? zlen w then Panic else Ok (w ++ zeros (len - zlen w)).
 
 (* big.Int.Int64(): the low 64 bits of |x| with the sign applied, wrapped *)
-Definition big_int64 (x : Z) : Z := i64 (Z.sgn x * (Z.abs x mod 2 ^ 64)).
+Definition big_int64 (x : Z) : Z := i64 (Z.sgn x * u64 (Z.abs x)).
 
 (* ---------- Bytes ---------- *)
 
@@ -129,21 +129,21 @@ Definition enc_value (t : Z) (v : value) (len : Z) : outcome bytes :=
       | VDec _ _ (Some x) =>
           if len <? 0 then Panic
           else if len =? 4 then Ok (le_put 4 (big_int64 x))
-          else if len =? 8 then Ok (le_put 4 (big_int64 x / 2 ^ 32) ++ le_put 4 (big_int64 x))
+          else if len =? 8 then Ok (le_put 4 (big_int64 x / 4294967296) ++ le_put 4 (big_int64 x))
           else Ok (zeros len)
-      | VDec _ _ None => Panic
+      | VDec _ _ None => Ok []   (* NULL, as returned by GoValue for zero-length data *)
       | _ => Err
       end
   | EDec =>
       match v with
       | VDec _ _ (Some x) => Ok ((if x <? 0 then 1 else 0) :: be_min (Z.abs x))
-      | VDec _ _ None => Panic
+      | VDec _ _ None => Ok []   (* NULL, as returned by GoValue for zero-length data *)
       | _ => Err
       end
   | EDate =>
       match v with
       | VTime tm =>
-          let d := i64 (dur_from_datetime tm - dur_from_datetime (CT 1900 1 1 0 0 0 0)) in
+          let d := i64 (dur_from_datetime tm - dur_epoch1900) in
           let '(days, _) := split_days d in
           if len <? 0 then Panic else put_front len (le_put 4 days)
       | _ => Panic
@@ -152,13 +152,15 @@ Definition enc_value (t : Z) (v : value) (len : Z) : outcome bytes :=
       match v with
       | VTime tm =>
           let fract := us_to_frac (dur_from_time tm) in
+          (* rounded up to 24:00:00, which is not a time of day: saturate at the last tick *)
+          let fract := if fract =? 25920000 then fract - 1 else fract in
           if len <? 0 then Panic else put_front len (le_put 4 fract)
       | _ => Panic
       end
   | EDateTime =>
       match v with
       | VTime tm =>
-          let d := i64 (dur_from_datetime tm - dur_from_datetime (CT 1900 1 1 0 0 0 0)) in
+          let d := i64 (dur_from_datetime tm - dur_epoch1900) in
           let '(days, rest) := split_days d in
           if len <? 0 then Panic
           else if len =? 4 then Ok (le_put 2 days ++ le_put 2 (dur_minutes rest))
@@ -227,7 +229,7 @@ Definition dec_value (t : Z) (bs : bytes) : outcome value :=
       else if n =? 4 then Ok (VDec c_shortmoney_precision c_shortmoney_scale (Some (i32 (le_of_bytes bs))))
       else if n =? 8 then
         Ok (VDec c_money_precision c_money_scale
-              (Some (i64 (le_of_bytes (ztake 4 bs) * 2 ^ 32 + le_of_bytes (zdrop 4 bs)))))
+              (Some (i64 (le_of_bytes (ztake 4 bs) * 4294967296 + le_of_bytes (zdrop 4 bs)))))
       else Ok (VDec 0 0 (Some 0))
   | DDec =>
       match bs with
